@@ -119,6 +119,24 @@ func (c *Checkpointer) AddAlreadyKnownSeq(seq ...SequenceID) {
 	c.lock.Unlock()
 }
 
+// MarkExpectedSeqsAlreadyKnown marks sequences that have been announced with AddExpectedSeqs as needing no further
+// processing, because the peer already has them.
+func (c *Checkpointer) MarkExpectedSeqsAlreadyKnown(seq ...SequenceID) {
+	select {
+	case <-c.ctx.Done():
+		// replicator already closed, bail out of checkpointing work
+		return
+	default:
+	}
+
+	c.lock.Lock()
+	for _, seq := range seq {
+		c.processedSeqs[seq] = struct{}{}
+	}
+	c.stats.AlreadyKnownSequenceCount += int64(len(seq))
+	c.lock.Unlock()
+}
+
 func (c *Checkpointer) AddProcessedSeq(seq SequenceID) {
 	select {
 	case <-c.ctx.Done():
